@@ -60,6 +60,12 @@ func CheckStatus(opts Options) ([]*result.CertRevocationResult, error) {
 		HTTPClient:  opts.HTTPClient,
 	}
 
+	// panicChan is used to store a panic raised in a goroutine, so that it
+	// can be re-raised on the caller's goroutine instead of aborting the
+	// process
+	panicChan := make(chan any, len(opts.CertChain))
+	defer close(panicChan)
+
 	// Check status for each cert in cert chain
 	var wg sync.WaitGroup
 	ctx := context.Background()
@@ -68,6 +74,11 @@ func CheckStatus(opts Options) ([]*result.CertRevocationResult, error) {
 		// Assume cert chain is accurate and next cert in chain is the issuer
 		go func(i int, cert *x509.Certificate) {
 			defer wg.Done()
+			defer func() {
+				if r := recover(); r != nil {
+					panicChan <- r
+				}
+			}()
 			certResults[i] = ocsp.CertCheckStatus(ctx, cert, opts.CertChain[i+1], certCheckStatusOptions)
 		}(i, cert)
 	}
@@ -81,5 +92,13 @@ func CheckStatus(opts Options) ([]*result.CertRevocationResult, error) {
 	}
 
 	wg.Wait()
+
+	// handle panic
+	select {
+	case p := <-panicChan:
+		panic(p)
+	default:
+	}
+
 	return certResults, nil
 }
